@@ -174,7 +174,7 @@ func vmCorpus() []vmProg {
 		{"div", "gauge g\ngauge h\n/K1=(\\d+) K2=(\\d+)/ {\n  g = $1 / $2\n  h = $1 % $2\n}\n", true, ""},
 		{"shift", "gauge g\ngauge h\n/K1=(\\d+) K2=(\\d+)/ {\n  g = $1 << $2\n  h = $1 >> $2\n}\n", false, ""},
 		{"cmp", "counter c\n/K1=(\\d+)/ && $1 > 5 {\n  c++\n}\n", true, ""},
-		{"logic", "counter c\ncounter d\n/K1=(\\d+)/ || /K2=(\\d+)/ {\n  c++\n}\n/K1=(\\d+)/ && /K2=(\\d+)/ {\n  d++\n}\n", false, ""},
+		{"logic", "counter c\ncounter d\ngauge x\n/K1=(\\d+)/ && $1 > 5 || x == 3 {\n  c++\n}\n/K2=(\\d+)/ && x != 0 {\n  d++\n}\n", false, ""},
 		{"len", "gauge g\n/K1=(\\w+)/ {\n  g = len($1)\n}\n", false, ""},
 		{"tolower", "counter c by k\n/K1=(\\w+)/ {\n  c[tolower($1)]++\n}\n", false, ""},
 		{"strtol", "gauge g\n/K1=(\\w+)/ {\n  g = strtol($1, 16)\n}\n", false, ""},
